@@ -153,9 +153,9 @@ CHECKS["C29"] = dict(engine="tlc+vh", level="model_checking", ref="4.16", techni
                      text="Exhaustive finite matrix: each of 702 (configuration, credential, endpoint) cells must be served exactly when the reference grants the role, rejected requests must leave workers, groups, connectors and migrations unchanged; near-miss keys (transposition, compensating bit flips) and 2048 arbitrary wrong keys must be rejected.",
                      note="Trusted: warp::test and the public handle_rejection the server installs. Bounded: 26 cluster endpoints of the default build; Raft RPC routes need the raft feature and are covered with C35-C38's harness when built.")
 
-CHECKS["C23"] = dict(engine="tlc+vh", level="exploration", ref="4.12", technique="TLA+ spec (Reload.tla): reload as a function on abstract engine state (unchanged streams keep state, changed streams become fresh); TLC generates (edit class, event stream, reload position) cases over 21 edit classes; each replayed on the real Engine::reload and compared with a never-reloaded twin (identity / untouched streams) or a fresh engine of the new program on the suffix (changed streams)",
+CHECKS["C23"] = dict(engine="tlc+vh", level="exploration", ref="4.12", technique="TLA+ spec (Reload.tla): reload as a function on abstract engine state (unchanged streams keep state, changed streams become fresh); TLC generates (edit class, event stream, reload position) cases over 26 edit classes; each replayed on the real Engine::reload and compared with a never-reloaded twin (identity / untouched streams) or a fresh engine of the new program on the suffix (changed streams)",
                      text="Differential against real engines: for identity reloads and for streams an edit does not touch, the outputs after the reload point equal those of an engine that was never reloaded; for changed or renamed streams they equal those of a freshly loaded engine of the new program fed only the later events. Covers count/sliding/tumbling/partitioned windows, filters, sequences, Kleene, joins, merges, derived streams; threshold, window size, emit, added/removed operations, added sequence steps, merge inputs, renames.",
-                     note="Trusted: the two oracle engines (the property is an equivalence of executions). Bounded: 21 hand-written edit classes, streams of 8 (thorough 11) events over 3 types, one reload per run.")
+                     note="Trusted: the two oracle engines (the property is an equivalence of executions). Bounded: 26 hand-written edit classes, streams of 8 (thorough 11) events over 3 types, one reload per run.")
 
 CHECKS["C39"] = dict(engine="tlc+vh", level="model_checking", ref="4.19", technique="TLA+ spec (ConnInject.tla): character-level model of to_vpl_declaration's rendering and of the grammar's config_value lexer; TLC checks Lex(Emit(v)) = v against a closed form on every value over a 16-character alphabet and emits each (value, pipeline template) as a case; every case goes through the real to_vpl_declaration, inject_connectors, parser and Engine::load",
                      text="Exhaustive over values up to length 3 (thorough 4) plus a 52-word list (inf/nan/exponents/leading zeros/i64 and u64 boundaries/unicode/quotes/backslashes), in 8 pipeline templates (from, to, both, inline-declared, unknown connector, reference only in a comment, rich program, client_id_mode). Checked: the injected source parses; each injected declaration has exactly the stored parameters (AST and the runtime's ConnectorConfig); every used, stored, undeclared connector is injected; inline declarations and all other statements are unchanged.",
